@@ -12,4 +12,4 @@ def run(tier):
         "provenance terms: each of the 4 GenericBuilder::<V, Local>::try_encrypt passes PasetoNonce::from(&Key::<N>::try_new_random()?) - drawn inside the function on every path to the core call, with no self / static / constant leaf - "
         "to the core encryptor; try_new_random returns a buffer handed whole to SystemRandom::fill whose Result gates the Ok return; all drawn bytes reach the wire (verbatim v3/v4, as MAC key of the nonce derivation v1/v2); the prelude builders only delegate",
         ["ring::rand::SystemRandom is a CSPRNG: draws are unpredictable and collide with negligible probability"],
-        None, "the statistical statement (pairwise distinct nonces over 10^5 builds, per-bit frequency): a property of histories of the OS CSPRNG")
+        None, "the statistical statement (pairwise distinct nonces over 10^5 builds, per-bit frequency): a property of histories of the OS CSPRNG", sem_rules={'C10.S3': 4})
